@@ -264,6 +264,34 @@ def inspect_one(st: State, t, via_payload: bool, tools) -> None:
                               source, got2, expected),
                           {"oracle": "inspection", "a": X.to_json(t), "a_src": source, "via_payload": True,
                            "observed": got2, "expected": expected})
+    if via_payload:
+        # several swept parameters on one node, declared in non-alphabetical order: each parameter's reported signature
+        # must be the signature of ITS expression (a signature attached to another parameter is an equal signature for
+        # two sweeps that compute different values)
+        recent = st.__dict__.setdefault("recent_sources", [])
+        recent.append(source)
+        del recent[:-3]
+        if len(recent) == 3 and len(set(recent)) == 3:
+            exprs = dict(zip(("r", "q", "p") if st.run.counters.get("multi_param_payload_checked", 0) % 2 else ("q", "r", "p"), recent))
+            nodes = [{"processor": "FloatValueDataSource", "parameters": {"value": 1.0}},
+                     {"processor": "VPoly",
+                      "derive": {"parameter_sweep": {"parameters": dict(exprs), "variables": {"a": [1, 2], "b": [3], "c": [5, 7]},
+                                                     "collection": "FloatDataCollection"}}}]
+            try:
+                payload = build_payload(nodes)
+                psig = payload["pipeline_spec_canonical"]["nodes"][1]["preprocessor_metadata"]["derive"]["parameter_sweep"]["parameters_sig"]
+            except Exception as exc:
+                run.count("multi_param_payload_failed_" + type(exc).__name__)
+                psig = None
+            if psig is not None:
+                run.count("multi_param_payload_checked")
+                for pname, psrc in exprs.items():
+                    if psig.get(pname) != st.sig(psrc):
+                        st.report("inspection_sig_attached_to_other_parameter",
+                                  "sweep over parameters %s: parameters_sig[%r] is %r, the signature of its expression %s is %r"
+                                  % (list(exprs), pname, psig.get(pname), psrc, st.sig(psrc)),
+                                  {"oracle": "inspection_multi", "exprs": exprs, "parameter": pname})
+                        break
     # self-check of the exact evaluator against the real ExpressionEvaluator on the integer assignments
     try:
         fn = evaluator.compile(source, set(X.VARS))
